@@ -40,6 +40,8 @@ def call(interp, info, args):
 # --------------------------------------------------------------------------- token hooks
 
 def tok_field(interp, t, elem):
+    if t.extra and "fields" in t.extra and elem in t.extra["fields"]:
+        return t.extra["fields"][elem]
     raise Inconclusive("field projection %r on opaque token %r" % (elem, t), interp.where())
 
 
@@ -76,7 +78,7 @@ def tok_switch(interp, t, term):
     if t.kind == "I":
         lits = [int(v) for v, _ in term["targets"]]
         for l in lits:
-            interp.policy.int_cmp(interp, t, l)
+            interp.policy.int_cmp(interp, t, l, "Eq")
         return t.val + t.off
     if t.kind == "N":  # length token: only `== 0` tests
         lits = [int(v) for v, _ in term["targets"]]
@@ -165,7 +167,7 @@ def eq_values(interp, a, b):
                 raise Inconclusive("equality across domains %r %r" % (a, b), interp.where())
             interp.events.append(("eq", a.name, b.name))
             return a.val == b.val
-        x, y = interp.policy.int_cmp(interp, a, b)
+        x, y = interp.policy.int_cmp(interp, a, b, "Eq")
         return x == y
     if isinstance(a, (bool, int)) and isinstance(b, (bool, int)):
         return a == b
